@@ -155,6 +155,17 @@ func restoreNodeOpts(p *Program, nt nodeType) *UnitOpts {
 			}
 			ex.obligeSpec(exitEnv, name+"#fields:"+c[0], "schema", g, normal+" ==> ("+c[1]+")", nil)
 		}
+		if nt.Name == "Ident" {
+			// --- C07: an identifier is rendered as a selector on the name chosen for its package exactly
+			// when it carries the path of another package that is imported under a name ---
+			q := `r.Resolver != nil && $in.Path != "" && $in.Path != r.Path && has(r.packageNames, $in.Path) && r.packageNames[$in.Path] != "" && r.packageNames[$in.Path] != "."`
+			fresh := "!old(has(r.Ast.Nodes, n))"
+			sel := "cast(result, type(*ast.SelectorExpr))"
+			ex.obligeSpec(exitEnv, name+"#imports:qualified_is_selector_on_chosen_name", "schema", g,
+				fresh+" && ("+q+") ==> typeof(result) == type(*ast.SelectorExpr) && typeof("+sel+".X) == type(*ast.Ident) && cast("+sel+".X, type(*ast.Ident)).Name == r.packageNames[$in.Path] && "+sel+".Sel != nil && "+sel+".Sel.Name == $in.Name", nil)
+			ex.obligeSpec(exitEnv, name+"#imports:unqualified_is_bare", "schema", g,
+				fresh+" && !("+q+") ==> typeof(result) == type(*ast.Ident) && cast(result, type(*ast.Ident)).Name == $in.Name", nil)
+		}
 		sort.Strings(unmatched)
 		for _, um := range unmatched {
 			o := ex.oblige(name+"#fields:unmatched:"+um, "frame", "true", "false", "dst field without an ast counterpart and not in the dst-only table", "")
